@@ -122,10 +122,12 @@ def run_case(case):
     obs = {"counters": {}, "viols": [], "sets": {}}
     if case["kind"] == "name":
         nm = case["name"]
-        obs["key"] = "name|%s|%d|%s|%s" % (nm, case.get("mask", 15), case.get("dim", True), case.get("storage", 32))
+        obs["key"] = "name|%s|%d|%s|%s|%s" % (nm, case.get("mask", 15), case.get("dim", True), case.get("storage", 32), case.get("layout", 1))
         mask = case.get("mask", 15)
         prog = name_program(nm, mask, case.get("dim", True))
-        text = render(prog)
+        # identity may not depend on how many blanks stand around a name: single (canonical), none, or two at every gap
+        lay = case.get("layout", 1)
+        text = render(prog) if lay == 1 else render(prog, blanks=lambda i, g: lay if g in ("soft", "req") else 0)
         conv = harness.convert(text, initialize_vars=case.get("init", False), default_str_storage=case.get("storage", 32))
         if not conv["ok"]:
             obs["nontrivial"] = False
@@ -231,6 +233,30 @@ def run_case(case):
         if case.get("sample"):
             obs["sample"] = {"name": nm, "identifiers": sorted(user)}
         return obs
+    if case["kind"] == "printarr":
+        # an array element inside a PRINT list, with 0-3 blanks between the name and its parenthesis (juxtaposition is
+        # legal in PRINT lists, so a name cut loose from its subscript would still parse - as a scalar)
+        nm, k, sfx = case["name"], case["blanks"], case["suffix"]
+        text = "10 DIM %s%s(5)\n20 PRINT %s%s%s(1);%s%s%s( 2 )\n30 ?%s%s%s(3)\n" % (nm, sfx, nm, sfx, " " * k, nm, sfx, " " * k, nm, sfx, " " * k)
+        obs["key"] = "printarr|%s|%s|%d" % (nm, sfx, k)
+        conv = harness.convert(text)
+        if not conv["ok"]:
+            obs["nontrivial"] = False
+            obs["counters"]["refused"] = 1
+            return obs
+        r = identifiers(conv["out"])
+        if r is None:
+            obs["nontrivial"] = False
+            return obs
+        ids, inf, main = r
+        c = canon(nm).lower()
+        user = {i for i in ids if not (i in GENERATED or i.startswith("tmp_"))}
+        obs["counters"]["identifiers_checked"] = len(user)
+        want = {"arr_" + c + sfx}
+        if user != want:
+            obs["viols"].append({"sig": "C09/print-list/array-element-split", "detail": {"source": text, "identifiers": sorted(user), "expected": sorted(want),
+                                                                                        "emitted": "\n".join(conv["out"].split("\n")[-4:])}})
+        return obs
     # pair programs: two names in one program, identity read off known positions
     n1, n2 = case["names"]
     suffix = case["suffix"]
@@ -287,7 +313,7 @@ def cases(tier, seed):
         masks = [1 + (i * 7 + seed) % 14, 1 + (i * 3 + 5 + seed) % 14] if tier == "quick" else range(1, 15)
         for m in masks:
             yield {"kind": "name", "name": nm, "mask": m, "init": (i + m) % 2 == 1, "dim": (i + m) % 3 != 0,
-                   "storage": [32, 80, 16][(i * 5 + m) % 7 % 3]}
+                   "storage": [32, 80, 16][(i * 5 + m) % 7 % 3], "layout": [1, 2, 0, 3][(i * 3 + m) % 4]}
             if tier != "quick":
                 yield {"kind": "name", "name": nm, "mask": m, "init": (i + m) % 2 == 0, "dim": (i + m) % 3 == 0,
                        "storage": [80, 16, 32][(i * 5 + m) % 7 % 3]}
@@ -309,6 +335,10 @@ def cases(tier, seed):
         for suffix in ("", "$"):
             yield {"kind": "pair", "names": [w, w[:2]], "suffix": suffix, "array": False, "keyword": True}
             yield {"kind": "pair", "names": [w, w[:2]], "suffix": suffix, "array": True, "keyword": True}
+    for i, nm in enumerate(["A", "N", "AB", "Z9", "K", "XY"] if tier == "quick" else names[::7]):
+        for k in range(4):
+            for sfx in ("", "$"):
+                yield {"kind": "printarr", "name": nm, "blanks": k, "suffix": sfx}
     rng = random.Random(seed * 31 + 9)
     n = 1500 if tier == "quick" else 250000
     for i in range(n):
